@@ -32,8 +32,11 @@ TEXTS = [
 ]
 END_HEAD = ["</head>", "</head>", "</head>", "</head >", "</head\n>", "</head\t >", "</HEAD>", "</Head>"]
 END_BODY = ["</body>", "</body>", "</body>", "</body >", "</body\n>", "</BODY>", "</Body >"]
-CSS_PH = ['<link name="CSS_PLACEHOLDER">', '<link name="CSS_PLACEHOLDER"/>', '<link name="CSS_PLACEHOLDER" data-djc-id-a1B2c3="">', '<link name="CSS_PLACEHOLDER" data-djc-css-99914b="" data-djc-id-a1B2c3=""/>']
-JS_PH = ['<script name="JS_PLACEHOLDER"></script>', '<script name="JS_PLACEHOLDER" data-djc-id-Zz09aa=""></script>', '<script name="JS_PLACEHOLDER" data-djc-css-99914b="" data-djc-id-a1B2c3=""></script>']
+# (a placeholder that is the root of a component which is itself the root of other components carries one id per instance)
+CSS_PH = ['<link name="CSS_PLACEHOLDER">', '<link name="CSS_PLACEHOLDER"/>', '<link name="CSS_PLACEHOLDER" data-djc-id-a1B2c3="">', '<link name="CSS_PLACEHOLDER" data-djc-css-99914b="" data-djc-id-a1B2c3=""/>',
+          '<link name="CSS_PLACEHOLDER" data-djc-id-a1B2c3="" data-djc-id-Zz09aa=""/>', '<link name="CSS_PLACEHOLDER" data-djc-css-99914b="" data-djc-id-a1B2c3="" data-djc-id-Zz09aa="" data-djc-id-q7q7q7="">']
+JS_PH = ['<script name="JS_PLACEHOLDER"></script>', '<script name="JS_PLACEHOLDER" data-djc-id-Zz09aa=""></script>', '<script name="JS_PLACEHOLDER" data-djc-css-99914b="" data-djc-id-a1B2c3=""></script>',
+         '<script name="JS_PLACEHOLDER" data-djc-id-a1B2c3="" data-djc-id-Zz09aa=""></script>', '<script name="JS_PLACEHOLDER" data-djc-css-99914b="" data-djc-id-a1B2c3="" data-djc-id-Zz09aa="" data-djc-id-q7q7q7=""></script>']
 SENSITIVE = re.compile(r"</head|</body|_RENDERED|PLACEHOLDER", re.I)
 
 
